@@ -993,6 +993,24 @@ fn directed(rep: &mut Report, rng: &mut Rng) {
         let cs = CaseSpec { pr: &pr, opt: Opt::Sgd { lr: 0.1, mom: 0.0, nesterov: false }, x0: vec![0.0], kmax: 12, budgets: (0..=12).collect(), regime: "directed:zero-start:sgd".into(), stop_regime: "zero-start:tiny-scale".into() };
         monitor_case(rep, &cs, rng);
     }
+    // (3b) iterates that land *exactly* on a stationary point (gradient exactly 0) while the
+    //      velocity / first moment is still non-zero: the recurrences keep moving.
+    //      SGD: f = x² − 6x (+ an ordinary second coordinate), x0 = 1, stepsize ½, momentum ½: x1 = 3 exactly.
+    for (nest, tag) in [(false, "directed:exact-landing:momentum"), (true, "directed:exact-landing:nesterov")] {
+        for dim in [1usize, 2] {
+            let (a, b, x0) = if dim == 1 { (vec![2.0], vec![6.0], vec![1.0]) } else { (vec![2.0, 0.0, 0.0, 0.5], vec![6.0, 0.25], vec![1.0, 2.0]) };
+            let pr = Problem { kind: obj::Kind::Quad, label: "quad-convex", data: vec![a, b], dim };
+            let cs = CaseSpec { pr: &pr, opt: Opt::Sgd { lr: 0.5, mom: 0.5, nesterov: nest }, x0, kmax: 40, budgets: (0..=40).collect(), regime: tag.into(), stop_regime: "exact-landing".into() };
+            monitor_case(rep, &cs, rng);
+        }
+    }
+    //      Adam: f = 1e9·(x − 1)², x0 = 1.5, stepsize ½, β1 = β2 = ½: the first step is exactly ½.
+    for dim in [1usize, 2] {
+        let (a, b, x0) = if dim == 1 { (vec![2e9], vec![2e9], vec![1.5]) } else { (vec![2e9, 0.0, 0.0, 1.0], vec![2e9, 0.3], vec![1.5, 2.0]) };
+        let pr = Problem { kind: obj::Kind::Quad, label: "quad-convex", data: vec![a, b], dim };
+        let cs = CaseSpec { pr: &pr, opt: Opt::Adam { lr: 0.5, b1: 0.5, b2: 0.5, eps: 1e-8 }, x0, kmax: 40, budgets: (0..=40).collect(), regime: "directed:exact-landing:adam".into(), stop_regime: "exact-landing".into() };
+        monitor_case(rep, &cs, rng);
+    }
     // (4) controls that must stay silent: same quadratic, stepsize ¼ (converges in one step to 0,
     //     then genuinely stops), and a start at the optimum.
     {
